@@ -62,7 +62,7 @@ files, named constants, simplified conditions) across the modelled files, verifi
 batches; all twenty checks were run against each (`seeded/harmless/`): %d patches, %d alarms with the current
 checks%s.  The first run of the second round found ONE false alarm: C14 treated the text of seven glue statements
 of `run.go` as a proof obligation and reported the extraction of the argument parsing into a helper; the tie now
-goes through the real `Run` (probe `VerifConfig`, §2.3) and the text comparison is an information line only (§11).  After rounds 5-7 (new scenarios, oracles, configuration sweeps) 22 of the 24 refactorings were applied TOGETHER to one scratch worktree of the final /repo HEAD and all twenty quick checks run against it: 0 alarms (`seeded/harmless/COMBINED_RERUN.md`); a third round of twelve new refactorings (sets E, F: readers / configuration / glue / command-line programs, and kernels) against the final HEAD, applied set-wise: 0 alarms in 40 check runs.
+goes through the real `Run` (probe `VerifConfig`, §2.3) and the text comparison is an information line only (§11).  After rounds 5-7 (new scenarios, oracles, configuration sweeps) 22 of the 24 refactorings were applied TOGETHER to one scratch worktree of the final /repo HEAD and all twenty quick checks run against it: 0 alarms (`seeded/harmless/COMBINED_RERUN.md`); a third round of twelve new refactorings (sets E, F: readers / configuration / glue / command-line programs, and kernels) against the final HEAD, applied set-wise: 0 alarms in 40 check runs; a fourth set (G: six refactorings of exactly the regions of `crop.go` / `nitro.go` that round 9 brought into the model — `radia`, `vern`, the root distribution, the development-rate block, the N-supply block, `mineral` — each verified by a bit-level hash of the whole state at every day end) against the checks that model them: 0 alarms in 12 check runs (`seeded/harmless/ROUND_G.md`).
 
 """ % (len(rows), len(alarms), "" if not alarms else " (see RESULTS.md)")
 open(V + "/DESIGN.md", "w").write(d[:a] + new + "\n" + d[b:])
